@@ -1012,3 +1012,245 @@ Qed.
 Lemma bridge_text_shape t :
   binterp_bytes (tok_bytes (OParm FmMouseShape [PStr text_shape])) t = sem_tok (OParm FmMouseShape [PStr text_shape]) t.
 Proof. destruct t; reflexivity. Qed.
+(* ---------- the overlapped shutdown ---------- *)
+Lemma split_wait sc : before_wait sc ++ from_wait sc = sc.
+Proof. induction sc as [|[c s] r IH]; [reflexivity|]. destruct s; cbn; rewrite ?IH; reflexivity. Qed.
+
+Lemma run_top_aux_pre : forall a b ds m,
+  run_top_aux (a ++ b) ds m = run_top_aux b (fst (run_pre a ds m)) (snd (run_pre a ds m)).
+Proof.
+  induction a as [|[c s] r IH]; intros b ds m; [reflexivity|].
+  cbn [app run_top_aux run_pre].
+  destruct (ceval (s_fl m) c && negb (s_hung m)); [|apply IH].
+  destruct s; apply IH.
+Qed.
+
+(* the Close of the input goroutine, held at the parser wait and released, is the plain Close *)
+Lemma close_split early o x : x_closed x = false ->
+  close_end o (fst (close_begin_with early o x)) (snd (close_begin_with early o x)) = do_close o x.
+Proof.
+  intros Hc. unfold do_close. rewrite Hc, andb_false_r.
+  unfold close_begin_with.
+  change (calls_before_suspend close_calls) with (@nil callname).
+  change (run_calls [] o (s_fl (x_m x)) (x_m x)) with (x_m x).
+  destruct (run_pre (before_wait suspend_script) [] (x_m x)) as [ds m1] eqn:E.
+  cbn [fst snd]. unfold close_end. cbn [x_m x_shape_next x_shape_last x_gnext x_glast].
+  change (calls_after_suspend close_calls) with [CnConsoleClose].
+  change (run_calls close_calls o (s_fl (x_m x)) (x_m x)) with (run_top_aux suspend_script [] (x_m x)).
+  rewrite <- (split_wait suspend_script) at 2. rewrite run_top_aux_pre, E. cbn [fst snd].
+  reflexivity.
+Qed.
+
+(* what a goroutine writes does not depend on what was written before *)
+Definition pre (l : list otok) (m : mst) : mst := set_w (s_nuls m) (s_buf m) (l ++ s_out m) m.
+
+Lemma pre_out l m : s_out (pre l m) = l ++ s_out m. Proof. destruct m; reflexivity. Qed.
+
+Lemma pre_emit l k m : emit k (pre l m) = pre l (emit k m).
+Proof. destruct m; unfold emit, pre, set_w; cbn. rewrite app_assoc. reflexivity. Qed.
+
+Lemma pre_wws l ts m : w_write_string ts (pre l m) = pre l (w_write_string ts m).
+Proof. destruct m; unfold w_write_string, pre, buf_empty; cbn. destruct (negb (nonempty (toks_bytes ts))); reflexivity. Qed.
+
+Lemma pre_ww l ts m : w_write ts (pre l m) = pre l (w_write ts m).
+Proof. destruct m; unfold w_write, pre, buf_empty; cbn. destruct (negb (nonempty (toks_bytes ts))); reflexivity. Qed.
+
+Lemma pre_flush l m : w_flush (pre l m) = pre l (w_flush m).
+Proof.
+  destruct m as [fl d nx ls rf nu bf out pl hg]. unfold w_flush, buf_empty, pre, emit, show_cursor, set_w; cbn.
+  destruct (negb nu && negb (nonempty bf)).
+  - repeat match goal with |- context [if ?c then _ else _] => destruct c end; cbn; rewrite <- ?app_assoc; reflexivity.
+  - cbn. rewrite <- app_assoc. reflexivity.
+Qed.
+
+Lemma pre_step l s m : run_step s (pre l m) = pre l (run_step s m).
+Proof.
+  unfold run_step. replace (s_hung (pre l m)) with (s_hung m) by (destruct m; reflexivity).
+  destruct (s_hung m); [reflexivity|].
+  replace (s_d (pre l m)) with (s_d m) by (destruct m; reflexivity).
+  destruct s; try reflexivity; try apply pre_wws; try apply pre_ww; try apply pre_emit; try apply pre_flush;
+    try (destruct m; reflexivity).
+  destruct m as [fl d nx ls rf nu bf out pl hg]; cbn. destruct pl; reflexivity.
+Qed.
+
+Lemma pre_fl l m : s_fl (pre l m) = s_fl m. Proof. destruct m; reflexivity. Qed.
+Lemma pre_hung l m : s_hung (pre l m) = s_hung m. Proof. destruct m; reflexivity. Qed.
+
+Lemma pre_leaf l : forall sc m, run_leaf sc (pre l m) = pre l (run_leaf sc m).
+Proof.
+  induction sc as [|[c s] r IH]; intros m; [reflexivity|]. cbn [run_leaf]. rewrite pre_fl.
+  destruct (ceval (s_fl m) c); [rewrite pre_step|]; apply IH.
+Qed.
+
+Lemma pre_top l : forall sc ds m, run_top_aux sc ds (pre l m) = pre l (run_top_aux sc ds m).
+Proof.
+  induction sc as [|[c s] r IH]; intros ds m.
+  - cbn [run_top_aux]. revert m. induction ds as [|f ds IHd]; intros m; [reflexivity|].
+    cbn [fold_left]. rewrite pre_leaf. apply IHd.
+  - cbn [run_top_aux]. rewrite pre_fl, pre_hung.
+    destruct (ceval (s_fl m) c && negb (s_hung m)); [|apply IH].
+    destruct s; try (rewrite pre_step; apply IH); try apply IH.
+    rewrite pre_leaf. apply IH.
+Qed.
+
+Lemma clear_pre x : x_m x = pre (s_out (x_m x)) (x_m (clear_out x)).
+Proof. destruct x as [[? ? ? ? ? ? ? ? ? ?] ? ? ? ? ? ?]; unfold pre; cbn. rewrite app_nil_r. reflexivity. Qed.
+
+(* the output of the released Close: what was written up to the wait, then what the rest writes *)
+Lemma close_end_out o y ds :
+  s_out (x_m (close_end o y ds)) = s_out (x_m y) ++ s_out (x_m (close_end o (clear_out y) ds)).
+Proof.
+  unfold close_end. cbn [x_m].
+  change (calls_after_suspend close_calls) with [CnConsoleClose].
+  change (run_calls [CnConsoleClose] o ?a ?m) with m.
+  rewrite (clear_pre y) at 1. rewrite pre_top, pre_out. reflexivity.
+Qed.
+
+Lemma clear_clear x : clear_out (clear_out x) = clear_out x.
+Proof. destruct x as [[? ? ? ? ? ? ? ? ? ?] ? ? ? ? ? ?]; reflexivity. Qed.
+
+Lemma idle_all_zero n : forallb (fun c : Z * list otok => fst c =? 0) (idle_chunks n) = true.
+Proof. induction n; [reflexivity|exact IHn]. Qed.
+
+Lemma idle_no_output n : flat_map snd (idle_chunks n) = @nil otok.
+Proof. induction n; [reflexivity|exact IHn]. Qed.
+
+(* with the flag set, the application's Close calls return at the guard and write nothing *)
+Lemma app_closes_guarded o : forall n y, x_closed y = true ->
+  exists y', app_closes o n y = (idle_chunks n, (y', false)) /\ clear_out y' = clear_out y.
+Proof.
+  induction n as [|n IH]; intros y Hc.
+  - exists y. split; reflexivity.
+  - cbn [app_closes]. unfold app_close, do_close.
+    assert (Hc' : x_closed (clear_out y) = true) by (destruct y as [[? ? ? ? ? ? ? ? ? ?] ? ? ? ? ? ?]; exact Hc).
+    rewrite Hc'. change (close_guarded && true) with true. cbv iota.
+    destruct (IH (clear_out y) Hc') as (y' & E & Ey). rewrite E.
+    exists y'. split.
+    + destruct y as [[? ? ? ? ? ? ? ? ? ?] ? ? ? ? ? ?]; reflexivity.
+    + rewrite Ey. apply clear_clear.
+Qed.
+
+(* without it the first one does not return, and the rest is never issued *)
+Lemma app_closes_unguarded o n y : x_closed y = false ->
+  app_closes o (S n) y = ((2, []) :: idle_chunks n, (y, true)).
+Proof.
+  intros Hc. cbn [app_closes]. unfold app_close.
+  assert (Hc' : x_closed (clear_out y) = false) by (destruct y as [[? ? ? ? ? ? ? ? ? ?] ? ? ? ? ? ?]; exact Hc).
+  rewrite Hc', andb_false_r. reflexivity.
+Qed.
+
+Lemma later_closes o : forall n z, x_closed z = true -> s_hung (x_m z) = false ->
+  run_ops o (repeat OpClose n) z = idle_chunks n.
+Proof.
+  induction n as [|n IH]; intros z Hc Hh; [reflexivity|].
+  cbn [repeat run_ops idle_chunks].
+  assert (E : run_op o OpClose (clear_out z) = clear_out z).
+  { apply close_idempotent. destruct z as [[? ? ? ? ? ? ? ? ? ?] ? ? ? ? ? ?]; exact Hc. }
+  rewrite E.
+  assert (Hh' : s_hung (x_m (clear_out z)) = false) by (destruct z as [[? ? ? ? ? ? ? ? ? ?] ? ? ? ? ? ?]; exact Hh).
+  rewrite Hh, Hh'. cbn [negb andb].
+  replace (s_out (x_m (clear_out z))) with (@nil otok) by (destruct z as [[? ? ? ? ? ? ? ? ? ?] ? ? ? ? ? ?]; reflexivity).
+  f_equal. apply IH; [destruct z as [[? ? ? ? ? ? ? ? ? ?] ? ? ? ? ? ?]; exact Hc|exact Hh'].
+Qed.
+
+Lemma later_closes_hung o : forall n w, s_hung (x_m w) = true -> run_ops o (repeat OpClose n) w = idle_chunks n.
+Proof.
+  induction n as [|n IH]; intros w Hw; [reflexivity|]. cbn [repeat run_ops idle_chunks].
+  assert (Hw' : s_hung (x_m (clear_out w)) = true) by (destruct w as [[? ? ? ? ? ? ? ? ? ?] ? ? ? ? ? ?]; exact Hw).
+  assert (E : run_op o OpClose (clear_out w) = clear_out w) by (unfold run_op; rewrite Hw'; reflexivity).
+  rewrite E, Hw. cbn [negb andb].
+  replace (s_out (x_m (clear_out w))) with (@nil otok) by (destruct w as [[? ? ? ? ? ? ? ? ? ?] ? ? ? ? ? ?]; reflexivity).
+  f_equal. apply IH. exact Hw'.
+Qed.
+
+Lemma ops_state_is o : forall ops x, ops_state o ops x = run_ops_st o ops x.
+Proof. induction ops as [|p r IH]; intros x; [reflexivity|apply IH]. Qed.
+
+(* from a running state: the overlapped shutdown in closed form *)
+Lemma overlap_tail_running o x during after :
+  s_hung (x_m x) = false -> x_suspended x = false -> x_closed x = false ->
+  let z := run_op o OpKill (clear_out x) in
+  exists b e,
+    overlap_tail o x during after = Some ((0, b) :: idle_chunks during ++ (if s_hung (x_m z) then 2 else 0, e) :: idle_chunks after)
+    /\ s_out (x_m z) = b ++ e.
+Proof.
+  intros Hh Hs Hc z.
+  assert (Hc0 : x_closed (clear_out x) = false) by (destruct x as [[? ? ? ? ? ? ? ? ? ?] ? ? ? ? ? ?]; exact Hc).
+  assert (Hh0 : s_hung (x_m (clear_out x)) = false) by (destruct x as [[? ? ? ? ? ? ? ? ? ?] ? ? ? ? ? ?]; exact Hh).
+  assert (Ez : z = do_close o (clear_out x)) by (subst z; unfold run_op; rewrite Hh0; reflexivity).
+  pose proof (close_split close_flag_early o (clear_out x) Hc0) as Sp.
+  unfold overlap_tail, overlap_tail_with. rewrite Hh, Hs, Hc. cbn [orb].
+  fold close_begin. unfold close_begin in Sp. fold close_begin in Sp.
+  destruct (close_begin o (clear_out x)) as [y ds] eqn:Eb. cbn [fst snd] in Sp.
+  assert (Hy : x_closed y = true).
+  { unfold close_begin, close_begin_with in Eb.
+    destruct (run_pre _ _ _) in Eb. inversion Eb. reflexivity. }
+  destruct (app_closes_guarded o during y Hy) as (y1 & Ea & Ey). rewrite Ea.
+  rewrite Ey.
+  set (z' := close_end o (clear_out y) ds).
+  assert (Eo : s_out (x_m z) = s_out (x_m y) ++ s_out (x_m z')).
+  { rewrite Ez, <- Sp. apply close_end_out. }
+  assert (Hz : s_hung (x_m z') = s_hung (x_m z) /\ x_closed z' = true).
+  { split; [|reflexivity]. rewrite Ez, <- Sp. subst z'. unfold close_end. cbn [x_m].
+    change (calls_after_suspend close_calls) with [CnConsoleClose].
+    change (run_calls [CnConsoleClose] o ?a ?m) with m.
+    rewrite (clear_pre y) at 1. rewrite pre_top, pre_hung. reflexivity. }
+  destruct Hz as [Hz1 Hz2].
+  exists (s_out (x_m y)), (s_out (x_m z')). split; [|exact Eo].
+  rewrite Hz1. destruct (s_hung (x_m z)) eqn:Ehz.
+  - (* excluded later by the caller; the closed form still holds *)
+    rewrite (later_closes_hung o after z' Hz1). reflexivity.
+  - rewrite (later_closes o after z' Hz2 Hz1). reflexivity.
+Qed.
+
+(* a second Close that overlaps the shutdown started by a signal / panic is harmless *)
+Theorem overlapping_close_harmless :
+  forall (o : opts) (det : flags) (d : data) (rows cols : Z) (ops : list op) (during after : nat)
+         (other kitty0 kalt0 appid0 : list Z) (honours : bool),
+  let fl := apply_quirks o (with_nomouse (o_nomouse o) det) in
+  let t0 := fresh_term other kitty0 kalt0 (d_ustyle d) appid0 honours in
+  (f_osc176 fl = true -> d_appid d = appid0) ->
+  protocol fl PRun ops = Some PRun ->
+  hits_suspended_shutdown ops false false = false ->
+  let before := session_chunks o det d rows cols ops in
+  exists b e,
+    overlap_chunks o det d rows cols ops during after
+      = Some (before ++ (0, b) :: idle_chunks during ++ (0, e) :: idle_chunks after)
+    /\ session_chunks o det d rows cols (ops ++ [OpKill]) = before ++ [(0, b ++ e)]
+    /\ sem_toks (flat_map snd before ++ b ++ e) t0 = t0.
+Proof.
+  intros o det d rows cols ops during after other kitty0 kalt0 appid0 honours fl t0 Happ Hp Hh before.
+  subst before. unfold overlap_chunks, session_chunks.
+  set (x0 := start_session o det d rows cols).
+  assert (H0 : inv other kitty0 kalt0 appid0 honours fl d PRun x0 (sem_toks (s_out (x_m x0)) t0)).
+  { subst x0. unfold start_session. cbn [x_m]. rewrite startup_factor. fold fl.
+    destruct (startup_from_establishes other kitty0 kalt0 (d_ustyle d) appid0 honours fl (o_nomouse o) d) as (A & B1 & B2 & B3 & B4 & B5 & B6).
+    split; [|exact A]. unfold st_run; cbn [x_m x_suspended x_closed]. repeat split; assumption. }
+  destruct (ops_inv other kitty0 kalt0 appid0 honours fl d o Happ ops PRun PRun x0 _ false false H0 Hp (conj eq_refl eq_refl) Hh) as [A B].
+  rewrite ops_state_is. set (x := run_ops_st o ops x0) in *.
+  destruct A as [Sx Rx].
+  assert (Hx : s_hung (x_m x) = false /\ x_suspended x = false /\ x_closed x = false).
+  { destruct Sx as (_ & _ & _ & _ & _ & a & b & c). auto. }
+  destruct Hx as (Hx1 & Hx2 & Hx3).
+  destruct (overlap_tail_running o x during after Hx1 Hx2 Hx3) as (b & e & E1 & E2). cbv zeta in E1, E2.
+  destruct (close_restores other kitty0 kalt0 appid0 honours fl d x _ o OpKill (or_intror (or_introl eq_refl)) Sx Rx Happ) as [R1 R2].
+  cbv zeta in R1, R2. destruct R2 as [_ Hz].
+  rewrite Hz in E1. rewrite E1.
+  exists b, e. split; [reflexivity|]. split.
+  - rewrite run_ops_app. fold x. cbn [run_ops]. rewrite Hz, andb_false_r, E2. reflexivity.
+  - cbn [flat_map snd]. rewrite <- E2, <- !app_assoc, !sem_toks_app. exact R1.
+Qed.
+
+(* the order of `vx.closed = true` and Suspend matters, and the model sees it: a Close that sets the flag
+   only when it returns leaves the application's overlapping Close inside a second Suspend *)
+Theorem close_flag_late_refuted : forall (o : opts) (x : sst) (n a : nat),
+  s_hung (x_m x) = false -> x_suspended x = false -> x_closed x = false ->
+  exists b rest, overlap_tail_with false o x (S n) a = Some ((0, b) :: (2, []) :: rest).
+Proof.
+  intros o x n a Hh Hs Hc. unfold overlap_tail_with. rewrite Hh, Hs, Hc. cbn [orb].
+  destruct (close_begin_with false o (clear_out x)) as [y ds] eqn:Eb.
+  assert (Hy : x_closed y = false).
+  { unfold close_begin_with in Eb. destruct (run_pre _ _ _) in Eb. inversion Eb. cbn.
+    destruct x as [[? ? ? ? ? ? ? ? ? ?] ? ? ? ? ? ?]; exact Hc. }
+  rewrite (app_closes_unguarded o n y Hy). eexists. eexists. reflexivity.
+Qed.
